@@ -327,6 +327,10 @@ func (c *decoratorController) processNextWorkItem() bool {
 }
 
 func (c *decoratorController) enqueueParentObject(obj interface{}) {
+	// A delete may be delivered as a tombstone; look at the object it carries.
+	if tombstone, ok := obj.(cache.DeletedFinalStateUnknown); ok {
+		obj = tombstone.Obj
+	}
 	// If the parent doesn't match our selector, and it doesn't have our
 	// finalizer, we don't care about it.
 	if parent, ok := obj.(*unstructured.Unstructured); ok {
@@ -784,7 +788,9 @@ func makeUpdateStrategyMap(resources *dynamicdiscovery.ResourceMap, dc *v1alpha1
 func parentQueueKey(obj interface{}) (string, error) {
 	switch o := obj.(type) {
 	case cache.DeletedFinalStateUnknown:
-		return o.Key, nil
+		// The tombstone's own key is namespace/name, which splitParentQueueKey
+		// cannot parse: build the key from the object it carries.
+		return parentQueueKey(o.Obj)
 	case cache.ExplicitKey:
 		return string(o), nil
 	case *unstructured.Unstructured:
